@@ -67,7 +67,21 @@ def modelled : List String := [
   "ffg.Modulus",
   "ffg.NewElementFromUint64",
   "ffg.init@element.go",
-  "ffg.init@element.go#2"
+  "ffg.init@element.go#2",
+  "ff.<decls>@arith.go",
+  "ff.<decls>@asm.go",
+  "ff.<decls>@asm_noadx.go",
+  "ff.<decls>@doc.go",
+  "ff.<decls>@element.go",
+  "ff.<decls>@element_ops_amd64.go",
+  "ff.<decls>@element_ops_noasm.go",
+  "ffg.<decls>@arith.go",
+  "ffg.<decls>@asm.go",
+  "ffg.<decls>@asm_noadx.go",
+  "ffg.<decls>@doc.go",
+  "ffg.<decls>@element.go",
+  "ffg.<decls>@element_ops_amd64.go",
+  "ffg.<decls>@element_ops_noasm.go"
 ]
 
 theorem source_pinned : modelled.all (same I3.Gen.fingerprints) = true := by decide +kernel
@@ -75,6 +89,6 @@ theorem source_pinned : modelled.all (same I3.Gen.fingerprints) = true := by dec
 theorem function_set_pinned : (["ff.", "ffg."] : List String).all (sameKeys I3.Gen.fingerprints) = true := by
   decide +kernel
 
-theorem modelled_nonempty : 59 = modelled.length := by decide
+theorem modelled_nonempty : 73 = modelled.length := by decide
 
 end I3.Props.C11
